@@ -338,6 +338,36 @@ CheckEnd(s, e) ==
       ELSE ""
 
 FinalView(s) == SView(s)
+(* All clauses that the end of a build violates (a set, so that each property *)
+(* can recognise its own clause even when another one fails first).           *)
+BuildEndOrder == <<"NoSpuriousException", "ExceptionPropagates", "ExcIdentity",
+                   "ExceptionClassMatches", "ReturnMatches", "ForeignUntouched",
+                   "OutputsNotRewritten", "FinalTreeMatches", "RollbackRestores", "CacheWritten",
+                   "TempDirRemoved">>
+FirstOf(order, S) ==
+  IF S = {} THEN "" ELSE order[CHOOSE i \in DOMAIN order : order[i] \in S /\ \A j \in 1..(i-1) : order[j] \notin S]
+BuildEndFails(s, e) ==
+  LET d == FsOf(e.disk)
+      fr == s.stack[1]
+      C(cond, name) == IF cond THEN {} ELSE {name}
+  IN
+  IF fr.fin.out = "return" THEN
+    IF e.out # "returned" THEN {"NoSpuriousException"}
+    ELSE C(e.v = fr.fin.v, "ReturnMatches")
+         \cup C(ForeignUntouched(s, d), "ForeignUntouched")
+         \cup C(OutputsNotRewritten(s, d), "OutputsNotRewritten")
+         \cup C(Remove(d, {CachePath}) = FinalView(s), "FinalTreeMatches")
+         \cup C(IsFile(d, CachePath) /\ e.cser > 0, "CacheWritten")
+         \cup C(e.tmp, "TempDirRemoved")
+  ELSE
+    IF e.out # "raised" THEN {"ExceptionPropagates"}
+    ELSE C(fr.fin.x = 0 \/ e.same, "ExcIdentity")
+         \cup C(e.err = fr.fin.err, "ExceptionClassMatches")
+         \cup C(\A p \in Files(s.pre) \ ({CachePath} \cup s.rec.outs) : NodeAt(d, p) = s.pre[p],
+                "ForeignUntouched")
+         \cup C(RollbackOK(s.pre, d, s.rec.cdirs), "RollbackRestores")
+         \cup C(e.tmp, "TempDirRemoved")
+
 CheckBuildEnd(s, e) ==
   LET d == FsOf(e.disk) IN
   IF s.ph = "start" THEN          \* the root function was never called
@@ -350,25 +380,7 @@ CheckBuildEnd(s, e) ==
   ELSE IF ~(s.ph = "build" /\ Len(s.stack) = 1 /\ ~s.pend.on /\ s.stack[1].fin.out # "")
     THEN "H:build-end-in-frame"
   ELSE
-    LET fr == s.stack[1] IN
-    IF fr.fin.out = "return" THEN
-      IF e.out # "returned" THEN "NoSpuriousException"
-      ELSE IF e.v # fr.fin.v THEN "ReturnMatches"
-      ELSE IF ~ForeignUntouched(s, d) THEN "ForeignUntouched"
-      ELSE IF ~OutputsNotRewritten(s, d) THEN "OutputsNotRewritten"
-      ELSE IF Remove(d, {CachePath}) # FinalView(s) THEN "FinalTreeMatches"
-      ELSE IF ~(IsFile(d, CachePath) /\ e.cser > 0) THEN "CacheWritten"
-      ELSE IF ~e.tmp THEN "TempDirRemoved"
-      ELSE ""
-    ELSE
-      IF e.out # "raised" THEN "ExceptionPropagates"
-      ELSE IF fr.fin.x # 0 /\ ~e.same THEN "ExcIdentity"
-      ELSE IF e.err # fr.fin.err THEN "ExceptionClassMatches"
-      ELSE IF ~(\A p \in Files(s.pre) \ (Managed(s) \ s.targets) : NodeAt(d, p) = s.pre[p])
-        THEN "ForeignUntouched"
-      ELSE IF ~RollbackOK(s.pre, d, s.rec.cdirs) THEN "RollbackRestores"
-      ELSE IF ~e.tmp THEN "TempDirRemoved"
-      ELSE ""
+    FirstOf(BuildEndOrder, BuildEndFails(s, e))
 
 CheckClean(s, e) ==
   LET d == FsOf(e.disk)
@@ -416,6 +428,12 @@ Check(s, e) ==
     [] e.ev = "build_end" -> CheckBuildEnd(s, e)
     [] e.ev = "clean" -> CheckClean(s, e)
     [] OTHER -> "H:unknown-event"
+
+(* every clause the event violates (only build ends have several) *)
+Fails(s, e) ==
+  IF e.ev = "build_end" /\ s.ph = "build" /\ Len(s.stack) = 1 /\ ~s.pend.on /\ s.stack[1].fin.out # ""
+  THEN BuildEndFails(s, e)
+  ELSE IF Check(s, e) = "" THEN {} ELSE {Check(s, e)}
 
 -----------------------------------------------------------------------------
 (* Apply(s, e): the successor state (e has passed Check).                   *)
